@@ -414,10 +414,7 @@ pub fn check_c15(tier: &str, seed: u64) -> i32 {
         }
         return 1;
     }
-    if !m.inconclusive.is_empty() {
-        return 2;
-    }
-    0
+    crate::driver::exit_code_for_inconclusive(&m)
 }
 
 /// Builds (if needed) and runs the libFuzzer target for `secs` seconds. Ok(Some(path)) = crashing input.
